@@ -1,6 +1,15 @@
 import Mc.Spec.C05
+import Mc.Proofs.Idem
+import Mc.Proofs.Clash
+import Mc.Proofs.Laws
+import Mc.Proofs.WF
+import Mc.Proofs.HypPres
 /-
   C05 - property theorems (statements live here, helper lemmas in Mc/Proofs).
+
+  All theorems hold for every list `mks` of conventional merge keys and for unbounded
+  `o`, `l`, `d`.  Extra hypothesis predicates (`noNullOverArr`) are defined in
+  `Mc/Proofs/C05Hyps.lean`.
 -/
 namespace Mc.C05
 
@@ -13,5 +22,281 @@ theorem merge_scalar_dest (mks : List String) (o : J) (l : Option J) (d : J)
 theorem C05_clash_error_top (mks : List String) (os : KVs) (l : Option J) (d : J)
     (h1 : d.isObj = false) (h2 : d.isNull = false) : ∃ e, merge mks (.obj os) l d = .error e := by
   cases d <;> simp [J.isObj, J.isNull] at h1 h2 <;> exact ⟨"desired: expecting map", by simp [merge]⟩
+
+/-! ## 1. Idempotence -/
+
+/-- **C05 idempotence** (whole model, list-map branch included, structural equality).
+    Hypotheses: `d` and the first result `r` satisfy the uniqueness hypothesis `hypJ`
+    (`r` is the *observed* input of the second merge), merge-key values of `o` are scalars,
+    and `d` has no explicit `null` where `o` has an array.
+    `hypJ` of `o` and `l` is **not** needed; `hypJ mks r` cannot be replaced by `hypJ` of the
+    inputs (`C05_idempotent_keyswitch_counterexample`). -/
+theorem C05_idempotent (mks : List String) (o : J) (l : Option J) (d r : J)
+    (hd : hypJ mks d = true) (hr : hypJ mks r = true)
+    (hs : scalarKeys mks o = true) (hn : noNullOverArr o d = true)
+    (h : merge mks o l d = .ok r) :
+    merge mks r (some d) d = .ok r :=
+  idem_all mks d o l r hs hn hd hr h
+
+/-- the `eqv` form asked for by the property text -/
+theorem C05_idempotent_eqv (mks : List String) (o : J) (l : Option J) (d r : J)
+    (hd : hypJ mks d = true) (hr : hypJ mks r = true)
+    (hs : scalarKeys mks o = true) (hn : noNullOverArr o d = true)
+    (h : merge mks o l d = .ok r) :
+    ∃ r', merge mks r (some d) d = .ok r' ∧ r'.eqv r = true :=
+  ⟨r, C05_idempotent mks o l d r hd hr hs hn h, J.eqv_refl r (hypJ_wfB mks r hr)⟩
+
+/-- merging a value with itself as observed, last-applied and desired is the identity -/
+theorem C05_self_merge (mks : List String) (d : J) (hd : hypJ mks d = true) :
+    merge mks d (some d) d = .ok d :=
+  idem_all mks d .null none d rfl (noNullOverArr_scalar _ _ rfl rfl) hd hd (merge_scalar _ _ _ _ rfl rfl)
+
+section Examples
+private def exO : J := .obj [("spec", .obj [("replicas", .num 1), ("containers", .arr [
+    .obj [("name", .str "app"), ("image", .str "v1")],
+    .obj [("name", .str "sidecar"), ("image", .str "s")],
+    .obj [("name", .str "old"), ("image", .str "o")]])]), ("status", .obj [("ready", .bool true)])]
+private def exL : J := .obj [("spec", .obj [("gone", .num 0), ("containers", .arr [
+    .obj [("name", .str "app"), ("image", .str "v1")],
+    .obj [("name", .str "old"), ("image", .str "o")]])])]
+private def exD : J := .obj [("spec", .obj [("replicas", .num 2), ("containers", .arr [
+    .obj [("name", .str "new"), ("image", .str "n")],
+    .obj [("name", .str "app"), ("image", .str "v2"), ("args", .arr [.str "-v"])]])])]
+private def exR : J := .obj [("spec", .obj [("replicas", .num 2), ("containers", .arr [
+    .obj [("name", .str "app"), ("image", .str "v2"), ("args", .arr [.str "-v"])],
+    .obj [("name", .str "sidecar"), ("image", .str "s")],
+    .obj [("name", .str "new"), ("image", .str "n")]])]), ("status", .obj [("ready", .bool true)])]
+
+/-- non-vacuity of `C05_idempotent`: a list-map instance satisfying every hypothesis -/
+example : hypJ ["name"] exD = true ∧ hypJ ["name"] exR = true ∧ scalarKeys ["name"] exO = true ∧
+    noNullOverArr exO exD = true ∧ merge ["name"] exO (some exL) exD = .ok exR :=
+  ⟨by decide, by decide, by decide, by decide, by rfl⟩
+
+example : merge ["name"] exR (some exD) exD = .ok exR :=
+  C05_idempotent ["name"] exO (some exL) exD exR (by decide) (by decide) (by decide) (by decide) (by rfl)
+end Examples
+
+/-- the statement without any hypothesis is false: explicit `null` in desired over an
+    observed list-map whose items were all last-applied gives `[]`, then `null` -/
+theorem C05_idempotent_null_counterexample :
+    ¬ (∀ (mks : List String) (o : J) (l : Option J) (d r : J), merge mks o l d = .ok r →
+        ∃ r', merge mks r (some d) d = .ok r' ∧ r'.eqv r = true) := by
+  intro h
+  obtain ⟨r', h1, h2⟩ := h ["name"] (.arr [.obj [("name", .str "a")]])
+    (some (.arr [.obj [("name", .str "a")]])) .null (.arr []) (by rfl)
+  have h3 : merge ["name"] (.arr []) (some .null) .null = .ok .null := by rfl
+  rw [h3] at h1
+  cases h1
+  exact absurd h2 (by decide)
+
+/-- idempotence stated with hypotheses on the three *inputs* only (the form first intended) -/
+def C05_idempotent_full : Prop :=
+  ∀ (mks : List String) (o l d r : J),
+    hypJ mks o = true → hypJ mks l = true → hypJ mks d = true →
+    scalarKeys mks o = true → scalarKeys mks l = true → scalarKeys mks d = true →
+    noNullOverArr o d = true →
+    merge mks o (some l) d = .ok r →
+    ∃ r', merge mks r (some d) d = .ok r' ∧ r'.eqv r = true
+
+/-- `C05_idempotent_full` is **false** of the model (and of the Go code it transliterates):
+    removing the only observed item that lacks the key `name` lets the second merge switch
+    from `port` to `name`, under which two surviving observed items collide.
+    All inputs satisfy `hypJ` (unique under every key shared by *all* items of a list). -/
+theorem C05_idempotent_keyswitch_counterexample : ¬ C05_idempotent_full := by
+  intro h
+  obtain ⟨r', h1, h2⟩ := h ["name", "port"]
+    (.arr [.obj [("name", .str "a"), ("port", .num 1)], .obj [("name", .str "a"), ("port", .num 2)],
+           .obj [("port", .num 3)]])
+    (.arr [.obj [("port", .num 3)]])
+    (.arr [.obj [("name", .str "b"), ("port", .num 4)]])
+    (.arr [.obj [("name", .str "a"), ("port", .num 1)], .obj [("name", .str "a"), ("port", .num 2)],
+           .obj [("name", .str "b"), ("port", .num 4)]])
+    (by decide) (by decide) (by decide) (by decide) (by decide) (by decide) (by decide) (by rfl)
+  have h3 : merge ["name", "port"]
+      (.arr [.obj [("name", .str "a"), ("port", .num 1)], .obj [("name", .str "a"), ("port", .num 2)],
+             .obj [("name", .str "b"), ("port", .num 4)]])
+      (some (.arr [.obj [("name", .str "b"), ("port", .num 4)]]))
+      (.arr [.obj [("name", .str "b"), ("port", .num 4)]]) =
+      .ok (.arr [.obj [("name", .str "a"), ("port", .num 2)], .obj [("name", .str "a"), ("port", .num 2)],
+             .obj [("name", .str "b"), ("port", .num 4)]]) := by rfl
+  rw [h3] at h1
+  cases h1
+  exact absurd h2 (by decide)
+
+/-- `scalarKeys mks o` cannot be dropped either: a composite observed value under a conventional
+    key survives a desired `null`, changes the item's merge-key string and (after a key switch)
+    the second merge appends the desired item again.  Here `hypJ` holds of `o`, `l`, `d` *and* `r`. -/
+theorem C05_idempotent_scalarKeys_needed :
+    ¬ (∀ (mks : List String) (o l d r : J),
+        hypJ mks o = true → hypJ mks l = true → hypJ mks d = true → hypJ mks r = true →
+        noNullOverArr o d = true → merge mks o (some l) d = .ok r →
+        ∃ r', merge mks r (some d) d = .ok r' ∧ r'.eqv r = true) := by
+  intro h
+  obtain ⟨r', h1, h2⟩ := h ["name", "port"]
+    (.arr [.obj [("name", .obj [("a", .num 1)]), ("port", .num 1)], .obj [("port", .num 3)]])
+    (.arr [.obj [("port", .num 3)]])
+    (.arr [.obj [("name", .null), ("port", .num 1)]])
+    (.arr [.obj [("name", .obj [("a", .num 1)]), ("port", .num 1)]])
+    (by decide) (by decide) (by decide) (by decide) (by decide) (by rfl)
+  have h3 : merge ["name", "port"]
+      (.arr [.obj [("name", .obj [("a", .num 1)]), ("port", .num 1)]])
+      (some (.arr [.obj [("name", .null), ("port", .num 1)]]))
+      (.arr [.obj [("name", .null), ("port", .num 1)]]) =
+      .ok (.arr [.obj [("name", .obj [("a", .num 1)]), ("port", .num 1)],
+                 .obj [("name", .null), ("port", .num 1)]]) := by rfl
+  rw [h3] at h1
+  cases h1
+  exact absurd h2 (by decide)
+
+/-! ### an input-only form of idempotence
+
+`hypJ mks r` follows from two stronger, input-only conditions (defined in `Mc/Proofs/HypPres.lean`):
+`hypS` - under EVERY conventional key the items carrying it are pairwise distinct (not only under the
+keys shared by all items), and `coh mks o d` - an observed and a desired item equal under one
+conventional key are equal under every conventional key both carry. -/
+
+/-- the merge result satisfies the uniqueness hypothesis `hypJ` -/
+theorem C05_result_hyp (mks : List String) (o : J) (l : Option J) (d r : J)
+    (ho : hypS mks o = true) (hd : hypS mks d = true) (hc : coh mks o d = true)
+    (hs : scalarKeys mks o = true) (h : merge mks o l d = .ok r) : hypJ mks r = true :=
+  pres_all mks d o l r ho hd hc hs h
+
+/-- **C05 idempotence, hypotheses on the inputs only** -/
+theorem C05_idempotent_inputs (mks : List String) (o : J) (l : Option J) (d r : J)
+    (ho : hypS mks o = true) (hd : hypS mks d = true) (hc : coh mks o d = true)
+    (hs : scalarKeys mks o = true) (hn : noNullOverArr o d = true)
+    (h : merge mks o l d = .ok r) :
+    merge mks r (some d) d = .ok r :=
+  C05_idempotent mks o l d r (hypS_hypJ mks d hd) (C05_result_hyp mks o l d r ho hd hc hs h) hs hn h
+
+section Examples2
+private def ex2O : J := .obj [("ports", .arr [
+    .obj [("containerPort", .num 80), ("name", .str "http")],
+    .obj [("containerPort", .num 443), ("name", .str "https")],
+    .obj [("containerPort", .num 9090)]])]
+private def ex2L : J := .obj [("ports", .arr [.obj [("containerPort", .num 9090)]])]
+private def ex2D : J := .obj [("ports", .arr [
+    .obj [("containerPort", .num 80), ("name", .str "http"), ("protocol", .str "TCP")],
+    .obj [("containerPort", .num 8080), ("name", .str "alt")]])]
+private def ex2R : J := .obj [("ports", .arr [
+    .obj [("containerPort", .num 80), ("name", .str "http"), ("protocol", .str "TCP")],
+    .obj [("containerPort", .num 443), ("name", .str "https")],
+    .obj [("containerPort", .num 8080), ("name", .str "alt")]])]
+
+/-- non-vacuity of `C05_idempotent_inputs`, with two conventional keys and an actual key switch
+    (first merge keyed by `containerPort`, second by `name`) -/
+example : hypS ["name", "containerPort"] ex2O = true ∧ hypS ["name", "containerPort"] ex2D = true ∧
+    coh ["name", "containerPort"] ex2O ex2D = true ∧ scalarKeys ["name", "containerPort"] ex2O = true ∧
+    noNullOverArr ex2O ex2D = true ∧ merge ["name", "containerPort"] ex2O (some ex2L) ex2D = .ok ex2R :=
+  ⟨by decide, by decide, by decide, by decide, by decide, by rfl⟩
+
+example : merge ["name", "containerPort"] ex2R (some ex2D) ex2D = .ok ex2R :=
+  C05_idempotent_inputs ["name", "containerPort"] ex2O (some ex2L) ex2D ex2R
+    (by decide) (by decide) (by decide) (by decide) (by decide) (by rfl)
+
+/-- the key-switch counterexample violates `coh` (and its variant with two observed items of the
+    same name violates `hypS`) -/
+example : coh ["name", "port"]
+    (.arr [.obj [("name", .str "a"), ("port", .num 1)], .obj [("port", .num 3)]])
+    (.arr [.obj [("name", .str "a"), ("port", .num 4)]]) = false := by decide
+example : hypS ["name", "port"]
+    (.arr [.obj [("name", .str "a"), ("port", .num 1)], .obj [("name", .str "a"), ("port", .num 2)],
+           .obj [("port", .num 3)]]) = false := by decide
+end Examples2
+
+/-! ## 2. Clash ⇒ error -/
+
+/-- **C05 clash clause**: a non-null desired value of another JSON kind than a composite observed
+    value, at a path both reach through objects, makes the merge fail (never silently dropped) -/
+theorem C05_clash_error (mks : List String) (o : J) (l : Option J) (d : J)
+    (hd : d.wfB = true) (hc : clash o d = true) : ∃ e, merge mks o l d = .error e :=
+  clash_all mks d o l hd hc
+
+theorem C05_clash_error' (mks : List String) (o : J) (l : Option J) (d : J)
+    (hd : hypJ mks d = true) (hc : clash o d = true) : ∃ e, merge mks o l d = .error e :=
+  C05_clash_error mks o l d (hypJ_wfB mks d hd) hc
+
+/-- non-vacuity: a nested clash -/
+example : (J.obj [("a", .obj [("b", .num 1)])]).wfB = true ∧
+    clash (.obj [("a", .obj [("b", .obj [])])]) (.obj [("a", .obj [("b", .num 1)])]) = true :=
+  ⟨by decide, by decide⟩
+
+/-! ## 3. Containment -/
+
+/-- **C05 containment**: every field present in desired has the desired value in the result -/
+theorem C05_contains (mks : List String) (o : J) (l : Option J) (d r : J)
+    (hd : hypJ mks d = true) (h : merge mks o l d = .ok r) : contains r d = true :=
+  cont_all mks d o l r hd h
+
+example : contains exR exD = true :=
+  C05_contains ["name"] exO (some exL) exD exR (by decide) (by rfl)
+
+/-! ## 4. Removed + preserved -/
+
+/-- **C05 laws** (removed + preserved, whole model, list-map branch included):
+    keys / list-map items of `l` that `d` dropped are absent from `r`; every other key / item of
+    `o` is kept (untouched when `d` does not mention it, recursively lawful otherwise); `r` has
+    nothing that neither `o` nor `d` has; list-map order is "surviving observed, then new desired". -/
+theorem C05_laws (mks : List String) (o : J) (l : Option J) (d r : J)
+    (ho : hypJ mks o = true) (hl : hypO mks l = true) (hd : hypJ mks d = true)
+    (hs : scalarKeys mks o = true)
+    (h : merge mks o l d = .ok r) : laws mks r o l d = true :=
+  laws_all mks d o l r ho hl hd hs h
+
+example : hypJ ["name"] exO = true ∧ hypO ["name"] (some exL) = true ∧ hypJ ["name"] exD = true ∧
+    scalarKeys ["name"] exO = true ∧ merge ["name"] exO (some exL) exD = .ok exR :=
+  ⟨by decide, by decide, by decide, by decide, by rfl⟩
+
+example : laws ["name"] exR exO (some exL) exD = true :=
+  C05_laws ["name"] exO (some exL) exD exR (by decide) (by decide) (by decide) (by decide) (by rfl)
+
+/-- readable top-level corollary, *removed*: a key of last-applied that desired no longer has is
+    absent from the result (only `uniq` of the desired keys is needed) -/
+theorem C05_removed_top (mks : List String) (os : KVs) (l : Option J) (ds rk : KVs) (k : String)
+    (hu : uniq ds) (h : merge mks (.obj os) l (.obj ds) = .ok (.obj rk))
+    (hl : hasKey k (lastObj l) = true) (hd : hasKey k ds = false) : hasKey k rk = false := by
+  rw [merge_obj_obj] at h
+  obtain ⟨rk', hr, _, h2⟩ := mergeFields_spec mks _ ds _ _ hu h
+  cases hr
+  rw [hasKey_false_iff, h2 k ((hasKey_false_iff _ _).mp hd), lookup_prune]
+  simp [hl, hd]
+
+/-- readable top-level corollary, *preserved*: a key that neither last-applied nor desired
+    mentions keeps its observed value (or stays absent) -/
+theorem C05_preserved_top (mks : List String) (os : KVs) (l : Option J) (ds rk : KVs) (k : String)
+    (hu : uniq ds) (h : merge mks (.obj os) l (.obj ds) = .ok (.obj rk))
+    (hl : hasKey k (lastObj l) = false) (hd : hasKey k ds = false) : lookup k rk = lookup k os := by
+  rw [merge_obj_obj] at h
+  obtain ⟨rk', hr, _, h2⟩ := mergeFields_spec mks _ ds _ _ hu h
+  cases hr
+  rw [h2 k ((hasKey_false_iff _ _).mp hd), lookup_prune]
+  simp [hl]
+
+/-! ## 5. Corollaries -/
+
+/-- `eqv` (the model of `reflect.DeepEqual`) is reflexive on well-formed values -/
+theorem C05_eqv_refl (j : J) (h : j.wfB = true) : j.eqv j = true := J.eqv_refl j h
+
+/-- `merge` never returns a non-well-formed value from well-formed observed and desired values
+    (last-applied is unconstrained: nothing flows from it into the result) -/
+theorem C05_merge_wf (mks : List String) (o : J) (l : Option J) (d r : J)
+    (ho : o.wfB = true) (hd : d.wfB = true) (h : merge mks o l d = .ok r) : r.wfB = true :=
+  presWF_all mks d o l r ho hd h
+
+theorem C05_merge_WF (mks : List String) (o : J) (l : Option J) (d r : J)
+    (ho : o.WF) (hd : d.WF) (h : merge mks o l d = .ok r) : r.WF :=
+  (J.wfB_iff_WF r).mp (C05_merge_wf mks o l d r ((J.wfB_iff_WF o).mpr ho) ((J.wfB_iff_WF d).mpr hd) h)
+
+/-- the uniqueness hypothesis implies well-formedness -/
+theorem C05_hypJ_wfB (mks : List String) (j : J) (h : hypJ mks j = true) : j.wfB = true := hypJ_wfB mks j h
+
+/-- a successful merge has no clash (contrapositive of `C05_clash_error`) -/
+theorem C05_ok_no_clash (mks : List String) (o : J) (l : Option J) (d r : J)
+    (hd : d.wfB = true) (h : merge mks o l d = .ok r) : clash o d = false := by
+  cases hc : clash o d with
+  | false => rfl
+  | true =>
+    obtain ⟨e, he⟩ := C05_clash_error mks o l d hd hc
+    rw [he] at h; cases h
 
 end Mc.C05
